@@ -2,6 +2,10 @@
 // A-64: the crate is verified for 64-bit targets.
 global size_of usize == 8;
 
+pub mod utf8_ascii {
+use vstd::prelude::*;
+use vstd::string::StringSliceAdditionalSpecFns;
+
 /// index i is a UTF-8 character boundary for trivially ASCII reasons
 pub open spec fn ascii_boundary(b: Seq<u8>, i: int) -> bool {
     0 <= i <= b.len() && (i == 0 || i == b.len() || b[i] < 0x80 || b[i - 1] < 0x80)
@@ -18,12 +22,12 @@ pub axiom fn axiom_boundary_after_ascii(b: Seq<u8>, i: int)
         vstd::utf8::is_char_boundary(b, i),
 ;
 
-pub proof fn lemma_ascii_boundary(b: Seq<u8>, i: int)
+pub broadcast proof fn lemma_ascii_boundary(b: Seq<u8>, i: int)
     requires
         vstd::utf8::valid_utf8(b),
         ascii_boundary(b, i),
     ensures
-        vstd::utf8::is_char_boundary(b, i),
+        #[trigger] vstd::utf8::is_char_boundary(b, i),
 {
     if i == 0 || i == b.len() {
         vstd::utf8::is_char_boundary_start_end_of_seq(b);
@@ -35,13 +39,37 @@ pub proof fn lemma_ascii_boundary(b: Seq<u8>, i: int)
     }
 }
 
-/// every `&str` holds valid UTF-8 and its boundaries can be established through `ascii_boundary`
+/// every `&str` holds valid UTF-8
+pub broadcast proof fn lemma_str_valid_utf8(s: &str)
+    ensures
+        vstd::utf8::valid_utf8(#[trigger] s.spec_bytes()),
+{
+    vstd::utf8::encode_utf8_valid_utf8(s@);
+}
+
+/// every `String` holds valid UTF-8
+pub broadcast proof fn lemma_chars_valid_utf8(s: Seq<char>)
+    ensures
+        vstd::utf8::valid_utf8(#[trigger] vstd::utf8::encode_utf8(s)),
+{
+    vstd::utf8::encode_utf8_valid_utf8(s);
+}
+
 pub proof fn lemma_str_ascii_boundary(s: &str, i: int)
     requires
         ascii_boundary(s.spec_bytes(), i),
     ensures
         vstd::utf8::is_char_boundary(s.spec_bytes(), i),
 {
-    vstd::utf8::encode_utf8_valid_utf8(s@);
+    lemma_str_valid_utf8(s);
     lemma_ascii_boundary(s.spec_bytes(), i);
 }
+
+pub broadcast group group_utf8_ascii {
+    lemma_ascii_boundary,
+    lemma_str_valid_utf8,
+    lemma_chars_valid_utf8,
+}
+}
+pub use utf8_ascii::*;
+// (units add `group_utf8_ascii` to their single module-level `broadcast use`)
